@@ -78,6 +78,16 @@ def language_events(chk, maxlen, size_cfgs, pairs, rng):
                 ab = [toks[c][1] for c in combo]
                 v = _classify(_try_experiment([py], lists))
                 events.append(dict(op="exp", sizes=sz, scheds=[ab], v=v))
+        # longer schedules over the well-formed items only (indices 0 and 1 of every kind): the order rules - one state first,
+        # one POVM or measurement process last, nothing else twice - concern the whole word, whatever its length
+        if all(sizes):
+            wf = [i for i, t in enumerate(toks) if t[1]["t"] == "ok" and t[1]["k"] in KINDS and t[1]["i"] in (0, 1) and (t[1]["i"] == 0 or t[1]["k"] == "povm")]
+            for L in range(maxlen + 1, 6):
+                for combo in itertools.product(wf, repeat=L):
+                    py = [toks[c][0] for c in combo]
+                    ab = [toks[c][1] for c in combo]
+                    v = _classify(_try_experiment([py], lists))
+                    events.append(dict(op="exp", sizes=sz, scheds=[ab], v=v))
         # lists of two schedules (precedence between item and order errors)
         words = [[rng.randrange(len(toks)) for _ in range(rng.randint(1, 3))] for _ in range(pairs)]
         good = [[0 * 4 + 1, 1 * 4 + 1], [0 * 4 + 1, 2 * 4 + 1, 1 * 4 + 1], [0 * 4 + 1, 3 * 4 + 1]]
